@@ -14,6 +14,12 @@ Graph(g) with TaskGraphOK (recorded task graph, picker nodes contracted = depend
    through pipeline(), run(), func(), full_output; plus surplus-keyword and missing-argument variants.
 3. TLC validates every recorded history (TracePipelineLazy); eager and lazy values meet only in the spec (both = Eval).
 4. Random larger DAGs (c02.random_desc, up to 6 functions) go through 2-3.
+5. Faults (LCallFail / EvalRaise, ECallFail / ERaise; fault plan flt/eflt, desc.faults): every exported description in every
+   order, and every random DAG, additionally with user functions that raise on their first invocation only (transient) or on
+   every invocation (persistent): three successive eager calls next to three successive evaluate() calls on ONE handle;
+   a handle abandoned after an evaluate() that raised followed by further handles of the same construct_dag() block that
+   share its nodes; the same through a user cache.  TLC (MC_PipelineLazy with FaultsOn, EBSpec for the eager twin) explores
+   the fault behaviours of the model, TracePipelineLazy validates the recorded ones.
 """
 from __future__ import annotations
 
@@ -40,25 +46,28 @@ LEVEL = "model_checking"
 
 INVS = ("InvNothingBeforeEvaluate InvAtMostOncePerNode InvExactlyOnceNeeded InvCountIsDone InvValueIsEval InvGraphIsOK "
         "InvLazyTypeOK InvLDoneOnlyNeeded InvNoCallAfterEvaluate InvBuiltDefined InvMutantsRejected InvReusedNeedNoCall "
-        "InvOldNodesOnlySources")
+        "InvOldNodesOnlySources InvFailuresAccounted InvNoValueFromFailure InvFailedEvaluateOnlyRaises "
+        "InvRetryIsAFirstEvaluate InvEagerReturnNoFault")
 BCFG = """SPECIFICATION LBSpec
 CONSTANTS N = {n} Rich = {rich} Shard = {shard} NShards = {nshards} MaxEv = {maxev} AllKw = {allkw} MaxHandles = {maxh}
-  Modes = {modes} UserCacheOn = {ucache}
+  Modes = {modes} UserCacheOn = {ucache} FaultsOn = {faults} MaxFailEv = {maxfail}
 INVARIANT """ + INVS + "\n"
 UCFG = """SPECIFICATION LUSpec
 CONSTANTS N = {n} Rich = {rich} Shard = 0 NShards = 1 MaxEv = 2 AllKw = FALSE MaxHandles = 1 Modes = {{"call", "full"}} UserCacheOn = FALSE
+  FaultsOn = FALSE MaxFailEv = 0
 INVARIANT InvRefGraphOK InvDepEdgesStatic LEmit
 """
 # invariants re-checked on the states TLC reaches while explaining real behaviour (the action guards decide acceptance)
 TRACE_INVS = ["InvNothingBeforeEvaluate", "InvAtMostOncePerNode", "InvExactlyOnceNeeded", "InvValueIsEval", "InvGraphIsOK",
-              "InvDoneOnlyNeeded"]
+              "InvDoneOnlyNeeded", "InvFailuresAccounted", "InvNoValueFromFailure"]
 TRACE_INVS_LIGHT = ["InvNothingBeforeEvaluate", "InvAtMostOncePerNode", "InvDoneOnlyNeeded"]
 
 MODES = ["call", "run", "func", "full"]
 DAGVARS = ["off", "in", "out"]
 # fields the trace specification reads, per event (a field keeps one encoding wherever it occurs)
-FIELDS = {"begin": ("out", "kw", "mode"), "call": ("f", "kwargs"), "return": ("val",), "returnfull": ("pairs",),
-          "raise": ("cls", "val")}
+FIELDS = {"begin": ("out", "kw", "mode"), "call": ("f", "kwargs"), "callfail": ("f", "kwargs"), "return": ("val",),
+          "returnfull": ("pairs",), "raise": ("cls", "val")}
+FAULT_CLS = "HarnessError"          # what a harness function with a fault plan raises (TracePipelineLazy: FaultCls / FaultMsg)
 
 
 def slim(events: list[dict]) -> list[dict]:
@@ -68,6 +77,49 @@ def slim(events: list[dict]) -> list[dict]:
 
 def lev(**kw) -> dict:
     return kw
+
+
+def call_events(log_start: int) -> list[dict]:
+    """pcall.call_events, with the invocations that raised: build.invoke logs `call` and then, when the function's fault plan
+    strikes, `fail` - the pair becomes one `callfail` event."""
+    out: list[dict] = []
+    for rec in build.LOG[log_start:]:
+        if rec["e"] == "call":
+            fd = build.REG[rec["fid"]]
+            out.append(pcall.ev(e="call", f=rec["f"], kwargs=[[p, rec["kwargs"][p]] for p in fd["params"]]))
+            out[-1]["_fid"] = rec["fid"]
+        elif rec["e"] == "fail":
+            if not out or out[-1].get("_fid") != rec["fid"] or out[-1]["e"] != "call":
+                raise MachineryError("call log: `fail` record without its `call`")
+            out[-1]["e"] = "callfail"
+    for e in out:
+        del e["_fid"]
+    return out
+
+
+def eager_call(pipeline, out: str, kw_pairs: list[list], mode: str) -> list[dict]:
+    """pcall.do_call (one eager top-level call -> begin, call*, return | returnfull | raise) with `callfail` events."""
+    events = [pcall.ev(e="begin", out=out, kw=kw_pairs, mode="full" if mode == "full" else "call")]
+    kwargs = {n: from_json(v) for n, v in kw_pairs}
+    start = len(build.LOG)
+    try:
+        with contextlib.redirect_stdout(io.StringIO()):
+            if mode == "call":
+                r = pipeline(out, **kwargs)
+            elif mode == "run":
+                r = pipeline.run(out, kwargs=kwargs)
+            elif mode == "func":
+                r = pipeline.func(out)(**kwargs)
+            else:
+                r = pipeline.run(out, full_output=True, kwargs=kwargs)
+    except Exception as ex:  # noqa: BLE001
+        return slim(events + call_events(start)) + [_raise_event(ex)]
+    events += call_events(start)
+    if mode == "full":
+        events.append(pcall.ev(e="returnfull", pairs=[[str(k), to_json(v)] for k, v in r.items()]))
+    else:
+        events.append(pcall.ev(e="return", val=to_json(r)))
+    return slim(events)
 
 
 # ---- observing the real objects ----------------------------------------------------------------------
@@ -135,7 +187,9 @@ def _raise_event(ex: BaseException) -> dict:
 
 def block_history(pl, items: list[tuple], dagvar: str, k: int = 0) -> list[dict]:
     """Lazy calls on the real pipeline, each: build the handle, evaluate it twice; task graph before/after (first handle).
-    items: [(out, kw_pairs, mode)].  dagvar: "off" (no construct_dag; one item) | "in" (everything inside ONE
+    items: [(out, kw_pairs, mode)] or [(out, kw_pairs, mode, attempts)]: with `attempts` evaluate() is called that many times
+    whether or not it raises (fault histories; an evaluate() is reported as evalbegin .. evaluate while none has returned yet
+    and as reevaluate afterwards), without it the history ends at the first exception.  dagvar: "off" (no construct_dag; one item) | "in" (everything inside ONE
     construct_dag block, handle after handle) | "out" (one item; built inside the block, evaluated after leaving it)."""
     from pipefunc.lazy import construct_dag, evaluate_lazy
 
@@ -146,9 +200,9 @@ def block_history(pl, items: list[tuple], dagvar: str, k: int = 0) -> list[dict]
     buf = io.StringIO()
 
     def build_one(idx: int):
-        out, kw_pairs, mode = items[idx]
+        out, kw_pairs, mode = items[idx][:3]
         evs.append(lev(e="lbegin", out=out, kw=kw_pairs, mode="full" if mode == "full" else "call", dag=dagvar != "off",
-                       blk=idx, how=f"{mode}/{dagvar}/{k}"))
+                       blk=idx, how=f"{mode}/{dagvar}/{k}/{items[idx][3] if len(items[idx]) > 3 else 0}"))
         kwargs = {a: from_json(v) for a, v in kw_pairs}
         start = len(build.LOG)
         try:
@@ -164,10 +218,10 @@ def block_history(pl, items: list[tuple], dagvar: str, k: int = 0) -> list[dict]
                 else:
                     h = pl.func(out).call_full_output(**kwargs)
         except Exception as ex:  # noqa: BLE001
-            evs.extend(slim(pcall.call_events(start)))
+            evs.extend(slim(call_events(start)))
             evs.append(_raise_event(ex))
             return None
-        pre = slim(pcall.call_events(start))
+        pre = slim(call_events(start))
         evs.extend(pre)
         evs.append(lev(e="build", cls=handle_kind(h, mode, kwargs), n=len(pre)))
         remember_nodes(pl, h)
@@ -177,7 +231,8 @@ def block_history(pl, items: list[tuple], dagvar: str, k: int = 0) -> list[dict]
         nodes, edges = observe_graph(pl, tg)
         evs.append(lev(e="graph", nodes=nodes, edges=edges))
 
-    def evaluate(idx: int, h, which: int) -> bool:
+    def evaluate(idx: int, h, which: int, again: bool) -> bool:
+        """One evaluate() call (the which-th on this handle; again: an earlier one returned)."""
         full = items[idx][2] == "full"
         start = len(build.LOG)
         try:
@@ -187,12 +242,12 @@ def block_history(pl, items: list[tuple], dagvar: str, k: int = 0) -> list[dict]
                 else:
                     v = h.evaluate()
         except Exception as ex:  # noqa: BLE001
-            evs.extend(slim(pcall.call_events(start)))
+            evs.extend(slim(call_events(start)))
             evs.append(_raise_event(ex))
             return False
-        calls = slim(pcall.call_events(start))
+        calls = slim(call_events(start))
         evs.extend(calls)
-        name = ("evaluate" if which == 0 else "reevaluate") + ("full" if full else "")
+        name = ("reevaluate" if again else "evaluate") + ("full" if full else "")
         if full:
             if not isinstance(v, dict):
                 evs.append(lev(e=name, pairs=[["#notadict", to_json(v)]], n=len(calls)))
@@ -203,8 +258,18 @@ def block_history(pl, items: list[tuple], dagvar: str, k: int = 0) -> list[dict]
         return True
 
     def evaluates(idx: int, h) -> bool:
-        evs.append(lev(e="evalbegin"))
-        return evaluate(idx, h, 0) and evaluate(idx, h, 1)
+        if len(items[idx]) <= 3:
+            evs.append(lev(e="evalbegin"))
+            return evaluate(idx, h, 0, False) and evaluate(idx, h, 1, True)
+        returned = False
+        for which in range(items[idx][3]):
+            if not returned:
+                evs.append(lev(e="evalbegin"))
+            ok = evaluate(idx, h, which, returned)
+            if not ok and (returned or evs[-1].get("cls") != FAULT_CLS):
+                return False                 # not the exception of a fault plan, or raised by a handle that had returned
+            returned = returned or ok
+        return True
 
     if dagvar == "off":
         hb = build_one(0)
@@ -252,7 +317,7 @@ def make_pair(pdesc_ordered: dict, cache_type: str | None = None):
     return lpl, epl
 
 
-def histories_for_case(case: dict, rng: random.Random, scheme: str) -> list[dict]:
+def histories_for_case(case: dict, rng: random.Random, scheme: str, idx: int = 0) -> list[dict]:
     """One history per listing order of the description.
     scheme "full": every (output, valid cut) in every order: eager twin, lazy without dag, lazy under construct_dag.
     scheme "lean": every (output, valid cut) in every order by one lazy history (calling convention and dag variant rotate
@@ -315,6 +380,20 @@ def histories_for_case(case: dict, rng: random.Random, scheme: str) -> list[dict
             tc = with_cache(tdesc, ["first", "all", "last"][v % 3], "lru" if v % 5 == 4 else "simple")
             traces.append(cached_history(tc, order, [(o, [[x, pcall.kv(x)] for x in root_cut(tdesc, cuts[o])])
                                                      for o in sorted(cuts) if cuts[o]], v))
+        # the same description with a fault plan on its user functions.  Plan, variant and cuts rotate with the case index and
+        # the order: over the universe every plan meets every variant and every dag variant / calling convention many times
+        # (scheme "full": all variants per order, the plan rotates)
+        if scheme == "full" or oi % 3 == 1:
+            plans = fault_plans(n)
+            outs_c = [o for o in sorted(cuts) if cuts[o]]
+            for vi, variant in enumerate(FAULT_VARIANTS if scheme == "full" else [FAULT_VARIANTS[(idx + oi // 3) % 3]]):
+                v = idx + oi + vi
+                plan = plans[(idx + 3 * oi + 2 * vi) % len(plans)]
+                seq = outs_c[::-1] if (variant == "share") == (v % 4 != 3) else outs_c      # share: mostly consumers first
+                items = [(o, [[x, pcall.kv(x)] for x in
+                              (root_cut(tdesc, cuts[o]) if variant == "cached" or (v + j) % 2 == 0 else cuts[o][(v + j) % len(cuts[o])])])
+                         for j, o in enumerate(seq)]
+                traces.append(fault_history(tdesc, order, plan, variant, items, v))
     return traces
 
 
@@ -340,6 +419,50 @@ def cached_history(tdesc_c: dict, order: tuple, items: list[tuple], k: int) -> d
         evs += block_history(lpl, [(o, kw, MODES[kk % 4])], "in" if kk % 3 == 2 else "off", kk)
         evs += block_history(lpl, [(o, kw, MODES[(kk + kk // 4) % 4])], "in" if kk % 2 == 0 else "out", kk)
     return {"desc": t2, "ev": evs, "order": list(order), "cached": True}
+
+
+FAULT_VARIANTS = ["retry", "share", "cached"]
+
+
+def fault_plans(n: int) -> list[dict]:
+    """The fault plans of MC_PipelineLazy!FaultChoice on n functions (index -> 1: the first invocation raises, -1: every one)."""
+    return [{i: 1} for i in range(n)] + [{i: -1} for i in range(n)] + [{i: 1 for i in range(n)}]
+
+
+def fault_history(tdesc: dict, order: tuple, plan: dict, variant: str, items: list[tuple], k: int) -> dict:
+    """One history on a fresh lazy pipeline / eager twin pair whose user functions follow a fault plan.
+    plan: {index into tdesc.funcs: 1 (the first invocation raises) | -1 (every invocation raises)}; items: [(out, kw_pairs)].
+    retry : per item three evaluate() calls on ONE handle (first item: next to three eager calls of the twin)
+    share : the items as successive handles of ONE construct_dag() block, the first abandoned after a single evaluate()
+            (the later ones share its nodes, the one that raised included), then the first item again outside any block
+    cached: the pipeline has a user cache; per item a handle abandoned after a single evaluate(), then a handle for the same
+            inputs (which finds the earlier handle's nodes in the cache) evaluated twice, inside a construct_dag() block"""
+    n = len(tdesc["funcs"])
+    tc = with_cache(tdesc, ["first", "all", "last"][k % 3], "lru" if k % 5 == 4 else "simple") if variant == "cached" else tdesc
+    pd = pcall.tla_desc_to_py(tc)
+    for i, kind in plan.items():
+        pd["funcs"][i]["fail"] = {"when": 0 if kind == 1 else "*", "cls": FAULT_CLS, "args": ["fault in " + pd["funcs"][i]["name"]]}
+    t2 = {"funcs": [tc["funcs"][i] for i in order], "faults": [plan.get(i, 0) for i in order]}
+    if variant == "cached":
+        t2["cache_type"] = tc["cache_type"]
+    lpl, epl = make_pair({"funcs": [pd["funcs"][i] for i in order]}, cache_type=tc.get("cache_type"))
+    evs: list[dict] = []
+    if variant == "retry":
+        for j, (o, kw) in enumerate(items):
+            if j == 0:
+                for a in range(3):
+                    evs += eager_call(epl, o, kw, MODES[(k + a) % 4])
+            evs += block_history(lpl, [(o, kw, MODES[(k + j) % 4], 3)], DAGVARS[(k + j) % 3], k + j)
+    elif variant == "share":
+        evs += block_history(lpl, [(o, kw, MODES[(k + j) % 4], 1 if j == 0 else 2) for j, (o, kw) in enumerate(items)], "in", k)
+        o, kw = items[0]
+        evs += block_history(lpl, [(o, kw, MODES[(k + 1) % 4], 2)], "off", k)
+    else:
+        for j, (o, kw) in enumerate(items):
+            kk = k + j
+            evs += block_history(lpl, [(o, kw, MODES[kk % 4], 1)], "in" if kk % 3 == 2 else "off", kk)
+            evs += block_history(lpl, [(o, kw, MODES[(kk + kk // 4) % 4], 2)], "in" if kk % 2 == 0 else "out", kk)
+    return {"desc": t2, "ev": evs, "order": list(order), "cached": variant == "cached", "fault": variant}
 
 
 def root_cut(tdesc: dict, cs: list) -> tuple:
@@ -398,11 +521,33 @@ def random_cached_history(rng: random.Random, tdesc: dict) -> dict:
     return cached_history(tc, tuple(order), items, rng.randrange(12))
 
 
+def random_fault_history(rng: random.Random, tdesc: dict) -> dict:
+    """A random DAG with a random fault plan (one or two faulty functions, transient or persistent), a random variant, two or
+    three requested outputs (the later functions - the consumers - preferred) under valid argument combinations."""
+    n = len(tdesc["funcs"])
+    order = list(range(n))
+    rng.shuffle(order)
+    plan = {i: rng.choice([1, 1, -1]) for i in rng.sample(range(n), rng.choice([1, 1, 2]))}
+    variant = rng.choice(FAULT_VARIANTS)
+    outs = [o for f in tdesc["funcs"] for o in f["outputs"]]
+    with contextlib.redirect_stdout(io.StringIO()):
+        probe = build.make_pipeline(pcall.tla_desc_to_py(tdesc), tag="P:")
+    roots = {p for f in tdesc["funcs"] for p in f["params"]} - set(outs)
+    picked = sorted(rng.sample(outs, min(rng.randint(2, 3), len(outs))), key=outs.index, reverse=True)
+    items = []
+    for o in picked:
+        combos = sorted(probe.arg_combinations(o))
+        rootc = [c for c in combos if set(c) <= roots]
+        c = rng.choice(rootc) if rootc and (variant == "cached" or rng.random() < 0.7) else rng.choice(combos)
+        items.append((o, [[x, pcall.kv(x)] for x in c]))
+    return fault_history(tdesc, tuple(order), plan, variant, items, rng.randrange(12))
+
+
 # worker-process entry points (fork pool; every task is seeded by its own index: deterministic for a given --seed)
 def _w_case(arg: tuple) -> list[dict]:
     idx, case, seed, scheme = arg
     build.LOG.clear()
-    return histories_for_case(case, random.Random(seed * 1_000_003 + idx), scheme)
+    return histories_for_case(case, random.Random(seed * 1_000_003 + idx), scheme, idx)
 
 
 def _w_random(arg: tuple) -> list[dict]:
@@ -410,7 +555,7 @@ def _w_random(arg: tuple) -> list[dict]:
     rng = random.Random(seed * 1_000_003 + 500_000 + idx)
     build.LOG.clear()
     td = c02.random_desc(rng, rng.randint(3, 6))
-    return [random_history(rng, td), random_cached_history(rng, td)]
+    return [random_history(rng, td), random_cached_history(rng, td), random_fault_history(rng, td)]
 
 
 # ---- verdicts ------------------------------------------------------------------------------------------
@@ -448,6 +593,14 @@ def classify(tr: dict, reached: int) -> dict:
            "dag": bool(b.get("dag", False)), **c02.features(tr["desc"], b["out"], b["kw"])}
     outs = {o for f in tr["desc"]["funcs"] for o in f["outputs"]}
     sig["user_cache"] = bool(tr["desc"].get("cache_type"))
+    # fault plan of the pipeline ("none" | "transient" | "persistent" | "mixed"), and whether an evaluate() of THIS handle /
+    # an earlier call on the pipeline had raised the fault's exception before the rejected event
+    kinds = {x for x in tr["desc"].get("faults", []) if x}
+    sig["faults"] = "none" if not kinds else "mixed" if len(kinds) > 1 else "transient" if kinds == {1} else "persistent"
+    if kinds:
+        sig["fault_variant"] = tr.get("fault", "")
+        sig["after_failed_evaluate"] = any(x["e"] == "raise" and x["cls"] == FAULT_CLS for x in evs[s:reached - 1])
+        sig["after_failed_call_on_pipeline"] = any(x["e"] == "raise" and x["cls"] == FAULT_CLS for x in evs[:s])
     sig["shared_block"] = b.get("blk", 0) > 0
     if sig["shared_block"]:
         # some call of the block so far (this one included) supplies a value for a function output
@@ -772,14 +925,22 @@ def replay(rep: dict) -> int:
     w = rep["witness"]
     tdesc, b = w["desc"], w["call"]
     pdesc = pcall.tla_desc_to_py(tdesc)
-    lpl, epl = make_pair(pdesc)
+    for fd, kind in zip(pdesc["funcs"], tdesc.get("faults", [])):
+        if kind:        # (a fresh pair: the fault plan starts over, whatever earlier calls of the original history used up)
+            fd["fail"] = {"when": 0 if kind == 1 else "*", "cls": FAULT_CLS, "args": ["fault in " + fd["name"]]}
+    lpl, epl = make_pair(pdesc, cache_type=tdesc.get("cache_type"))
     build.LOG.clear()
     if b["e"] == "begin":
-        evs = slim(pcall.do_call(epl, b["out"], b["kw"], "full" if b["mode"] == "full" else "call"))
+        evs = eager_call(epl, b["out"], b["kw"], "full" if b["mode"] == "full" else "call")
     else:
         begins = [x for x in w["events"] if x["e"] == "lbegin"]
-        _, dagvar, k = begins[0]["how"].split("/")
-        evs = block_history(lpl, [(x["out"], x["kw"], x["how"].split("/")[0]) for x in begins], dagvar, int(k))
+        dagvar, k = begins[0]["how"].split("/")[1:3]
+
+        def item(x: dict) -> tuple:
+            how = x["how"].split("/")
+            att = int(how[3]) if len(how) > 3 else 0
+            return (x["out"], x["kw"], how[0], att) if att else (x["out"], x["kw"], how[0])
+        evs = block_history(lpl, [item(x) for x in begins], dagvar, int(k))
     print(json.dumps({"desc": tdesc, "sig": rep.get("sig")}, indent=1)[:3000])
     for e in evs:
         print("  ", json.dumps(e)[:400])
